@@ -225,7 +225,7 @@ def run(tier, seed, build):
             if m != "T":
                 failures.append({"kind": "predicate", "key": "system-wf_pil", "summary": "the specification emitted for an accepted system violates the well-formedness predicate", "replay": rep})
         elif m[0] == "Ok" and len(m[1]) > 2:
-            if m[1][2] == ["T"]: dist["system_names_ok"] += 1
+            if m[1][2] and all(x == "T" for x in m[1][2]): dist["system_names_ok"] += 1
             else: failures.append({"kind": "tie", "key": "names-okb", "summary": "a loaded system does not pass names_okb, the hypothesis of the system-level theorem", "replay": rep})
     return {"evaluations": len(cases) + len(scases), "distinct_nontrivial": len(nontrivial),
             "rule": "45% AST mutants of generated valid components (delete/duplicate/swap statements, perturb multipliers / lengths / run lengths, rename or star a reference, change a structure symbol, toggle `domain`, change the strand list; 30% doubly mutated) compared model vs implementation; 40% token-level text mutants (delete/duplicate/swap a token, perturb a number, insert a star, replace a bracket); 15% parameterised templates with wrong argument counts. On every accepted case the Coq-extracted predicate wf_pil is evaluated on the real .pil. Non-trivial = mutant that is still accepted",
